@@ -181,6 +181,18 @@ def _chunk(seeds):
     for sd in seeds:
         rnd = random.Random(sd)
         S = gs.gen_schema(sd, adversarial_text=rnd.random() < 0.5)
+        if sd % 5 < 3:
+            # the generator numbers its names in definition order, which is already sorted: shuffle every member list so
+            # that sorting really moves arguments, fields, values, members, interfaces, types and directives
+            for t in S["types"]:
+                for k in ("fields", "inputFields", "values", "members", "interfaces"):
+                    rnd.shuffle(t[k])
+                for f in t["fields"]:
+                    rnd.shuffle(f["args"])
+            for d in S["directives"]:
+                rnd.shuffle(d["args"])
+            rnd.shuffle(S["types"])
+            rnd.shuffle(S["directives"])
         A = gs.to_sdl(S)
         viol = []
         try:
